@@ -102,6 +102,8 @@ func init() {
 		"internal/bytealg.Equal":           extBytesEqual,
 		"bytes.Equal":                      extBytesEqual,
 		"internal/bytealg.Compare":         extBytesCompare,
+		"internal/bytealg.CompareString":   extBytesCompare,
+		"strings.Compare":                  extBytesCompare,
 		"internal/bytealg.MakeNoZero":      extMakeNoZero,
 		"internal/bytealg.IndexString":     extIndexString,
 		"internal/bytealg.Index":           extIndexString,
